@@ -1112,6 +1112,10 @@ def rule_fs_match_links(ctx: Ctx, rule: str) -> None:
         okb = len(outer) == 1 and len(inner) == 1 and mname is not None and isinstance(outer[0].target, ast.Tuple) and isinstance(inner[0].target, ast.Tuple)
         if okb:
             idx, part = norm_src(outer[0].target.elts[0]), norm_src(inner[0].target.elts[1])
-            okb = vals == sorted(['None', f'os.path.join(root, filename[:{mname}.start({idx})])', f'os.path.join({bn}, {part})'])
-    ctx.ob(rule, '_wcmatch:_Match._fs_match/base-rooted', okb, repo.loc('_wcmatch', fm.node), 'base starts at os.path.join(root, <prefix before the capture>) and grows by one part', str(vals),
+            okb = sorted(set(vals) - {'None'}) == sorted([f'os.path.join(root, filename[:{mname}.start({idx})])', f'os.path.join({bn}, {part})'])
+            # the prefix is taken afresh for every capture: not kept from an earlier capture under an `is None` test
+            start = [s for s in base if norm_src(s.value).startswith('os.path.join(root, ')]
+            okb = okb and len(start) == 1 and not any(bn in t and 'None' in t for t, _p in q.guards(start[0])) and \
+                any(x is start[0] for x in ast.walk(outer[0])) and not any(x is start[0] for x in ast.walk(inner[0]))
+    ctx.ob(rule, '_wcmatch:_Match._fs_match/base-rooted', okb, repo.loc('_wcmatch', fm.node), 'for every capture base restarts at os.path.join(root, <name up to that capture>) and grows by one part', str(vals),
            witness="globmatch('a/link/x', 'a/**/x', G, REALPATH, root_dir=r) must lstat r/a/link")
